@@ -21,8 +21,21 @@ func isNotSupportedError(e error) bool {
 
 func TamePanic(out chan []LogEntry) {
 	if err := recover(); err != nil {
-		logger.Error(err, " stack:", string(debug.Stack()))
-		out <- []LogEntry{{Err: fmt.Errorf("panic: %v", err)}}
+		ReportPanic(err, out)
 		recover()
 	}
+}
+
+// ReportPanic logs a recovered panic value and hands it downstream as an error entry.
+func ReportPanic(err any, out chan []LogEntry) {
+	logger.Error(err, " stack:", string(debug.Stack()))
+	out <- []LogEntry{{Err: fmt.Errorf("panic: %v", err)}}
+}
+
+// Drain lets the producers of an abandoned channel finish: they block on their unbuffered sends otherwise.
+func Drain(in chan []LogEntry) {
+	go func() {
+		for range in {
+		}
+	}()
 }
